@@ -433,6 +433,55 @@ def gen_Units():
     write("Units", body, "magpylib/_src/utility.py:_UNIT_PREFIX, get_unit_factor")
 
 
+def gen_SensorMesh():
+    """the literal template of the Sensor axes glyph (`sensor_mesh._get_default_trace`): the 98 vertices as EXACT dyadic numbers (every double is
+    m * 2^-k: the pair (m, k)), the 180 triangles, and the constants of `get_sensor_mesh` that say which face range carries which arrow"""
+    import ast
+    import inspect
+    from fractions import Fraction
+
+    from magpylib._src.display import sensor_mesh
+
+    t = sensor_mesh._get_default_trace()
+    n = len(t["x"])
+    if not (len(t["y"]) == n and len(t["z"]) == n and len(t["i"]) == len(t["j"]) == len(t["k"])):
+        raise Refusal("sensor mesh arrays of different lengths")
+
+    def dy(v):
+        f = Fraction(float(v))
+        k = f.denominator.bit_length() - 1
+        if f.denominator != 1 << k:
+            raise Refusal(f"not dyadic: {v!r}")
+        return f"(({f.numerator} : Int), {k})"
+
+    verts = ",\n  ".join(f"({dy(x)}, {dy(y)}, {dy(z)})" for x, y, z in zip(t["x"], t["y"], t["z"]))
+    faces = ", ".join(f"({int(a)}, {int(b)}, {int(c)})" for a, b, c in zip(t["i"], t["j"], t["k"]))
+    src = inspect.getsource(sensor_mesh.get_sensor_mesh)
+    tree = ast.parse(src)
+    consts = {}
+    for node in ast.walk(tree):
+        if isinstance(node, ast.Assign) and isinstance(node.targets[0], ast.Tuple) and [getattr(e, "id", None) for e in node.targets[0].elts] == ["N", "N2"]:
+            consts["N"], consts["N2"] = (ast.literal_eval(e) for e in node.value.elts)
+        if isinstance(node, ast.Assign) and getattr(node.targets[0], "id", None) == "indices":
+            consts["indices"] = ast.literal_eval(node.value)
+        if isinstance(node, ast.Call) and getattr(node.func, "attr", None) == "from_euler":
+            consts["euler"] = (ast.literal_eval(node.args[0]), ast.literal_eval(node.args[1]), [ast.literal_eval(k.value) for k in node.keywords if k.arg == "degrees"])
+    if consts.get("indices") != ((0, 12), (12, 68), (68, 124), (124, 180)) or consts.get("euler") != ("y", -90, [True]):
+        raise Refusal(f"get_sensor_mesh no longer has the expected constants: {consts}")
+    if "x_color, z_color = z_color, x_color" not in src or "x_show, z_show = z_show, x_show" not in src:
+        raise Refusal("get_sensor_mesh: the left-handed x/z swap is not found")
+    rng = ", ".join(f"({a}, {b})" for a, b in consts["indices"])
+    body = ("namespace MagpyVerif.Gen.SensorMesh\n\n"
+            "/-- the vertices of `_get_default_trace()`: each coordinate `(m, k)` stands for the double `m * 2^-k` (exact) -/\n"
+            f"def verts : List ((Int × Nat) × (Int × Nat) × (Int × Nat)) := [\n  {verts}]\n\n"
+            "/-- `zip(i, j, k)` of `_get_default_trace()` -/\n"
+            f"def faces : List (Nat × Nat × Nat) := [{faces}]\n\n"
+            "/-- `indices` of `get_sensor_mesh`: the face ranges of the centre cube and of the arrows that are coloured x, y, z for a right-handed sensor\n"
+            "(for `handedness == \"left\"` the vertices are turned by `from_euler(\"y\", -90, degrees=True)` and the x and z colours / show flags are exchanged) -/\n"
+            f"def ranges : List (Nat × Nat) := [{rng}]\n\nend MagpyVerif.Gen.SensorMesh\n")
+    write("SensorMesh", body, "magpylib/_src/display/sensor_mesh.py:_get_default_trace, get_sensor_mesh")
+
+
 def gen_Tol():
     """every float literal and every integer literal above 3 (in source order) and every comparison operator of the kernel functions that are ported by hand
     to Model/Kernels.lean, Model/Polyline.lean, Model/TrimeshSum.lean: thresholds, tolerances, series coefficients.
@@ -1283,7 +1332,7 @@ def gen_NpNames():
     write("NpNames", body, "the installed numpy (dir(numpy), probed like magpylib/_src/input_checks.py:check_format_pixel_agg does)")
 
 
-GENERATORS = {"AbsLen": gen_AbsLen, "KernTrace": gen_KernTrace, "StyleTemp": gen_StyleTemp, "Const": gen_Const, "Units": gen_Units, "Defaults": gen_Defaults, "StyleSchema": gen_StyleSchema, "Attr": gen_Attr, "PathPad": gen_PathPad, "Exits": gen_Exits, "Ndim": gen_Ndim, "Tol": gen_Tol, "CylSegGen": gen_CylSegGen, "ExcSync": gen_ExcSync, "InOut": gen_InOut, "WriteSet": gen_WriteSet, "Setters": gen_Setters, "NpNames": gen_NpNames}
+GENERATORS = {"AbsLen": gen_AbsLen, "KernTrace": gen_KernTrace, "StyleTemp": gen_StyleTemp, "Const": gen_Const, "Units": gen_Units, "SensorMesh": gen_SensorMesh, "Defaults": gen_Defaults, "StyleSchema": gen_StyleSchema, "Attr": gen_Attr, "PathPad": gen_PathPad, "Exits": gen_Exits, "Ndim": gen_Ndim, "Tol": gen_Tol, "CylSegGen": gen_CylSegGen, "ExcSync": gen_ExcSync, "InOut": gen_InOut, "WriteSet": gen_WriteSet, "Setters": gen_Setters, "NpNames": gen_NpNames}
 
 
 def main():
